@@ -47,6 +47,8 @@ SIDAuths == {0, 1, 65535}
 SIDInputs == {[kind |-> "roundtrip", r |-> r, a |-> a, len |-> 8, subs |-> 0, have |-> 0] : r \in SIDRevs, a \in SIDAuths}
         \cup {[kind |-> "bytes", r |-> 1, a |-> 5, len |-> k, subs |-> 0, have |-> 0] : k \in 0..8}
         \cup {[kind |-> "bytes", r |-> 1, a |-> 5, len |-> 8, subs |-> s, have |-> h] : s \in 1..3, h \in 0..12}
+        \* sub-authority counts up to the largest the count octet can announce (the announced length passes 255 at 62)
+        \cup UNION {{[kind |-> "bytes", r |-> 1, a |-> 5, len |-> 8, subs |-> s, have |-> h] : h \in {0, 3, 8, (4 * s) - 1, 4 * s}} : s \in {15, 61, 62, 63, 64, 127, 128, 255}}
 SIDOutcome(x) == IF x.len < 8 THEN "err" ELSE IF x.have < 4 * x.subs THEN "err" ELSE "ok"
 
 --------------------------------------------------------------------------
